@@ -148,8 +148,8 @@ def discPath (G : MG) (nb bnb : Nat → List Nat) (u a c : Nat) (maxLen : Nat :=
   let desc0 := [(a, u), (u, c)]
   -- u must be adjacent to c (fix)
   if !adj G u c then .ok (false, [], explored0)
-  -- a must be a parent of c
-  else if !isParent G c a then .ok (false, [], explored0)
+  -- a must be a parent of c: only `has_edge(a, c, directed)` is tested (known finding: a o-> c passes)
+  else if !hD G a c then .ok (false, [], explored0)
   -- arrowhead at a on the edge a *-* u
   else if !hB G a u && !hD G u a then .ok (false, [], explored0)
   else
